@@ -147,7 +147,9 @@ def run_property(pid, tier, seed):
     known_hits = []
 
     # ---------------- deductive part
-    targets = list(getattr(prop, 'TARGETS', []))
+    all_targets = list(getattr(prop, 'TARGETS', []))
+    targets = [t for t in all_targets if not (tier == 'quick' and t in core.HEAVY)]
+    deferred = [t for t in all_targets if t not in targets]
     obs, und, gen_s, solve_s = core.verify_targets(ld, targets, timeout_ms=getattr(prop, 'TIMEOUT_MS', 30000))
     for t, reason in und:
         undecided.append({'clause': t, 'reason': reason})
@@ -157,6 +159,8 @@ def run_property(pid, tier, seed):
     by_solver = {}
     for o in obs:
         by_solver[o.solver or '?'] = by_solver.get(o.solver or '?', 0) + 1
+    not_discharged = []
+    soft_undecided = []
     known_clauses = {k['clause']: k for k in known.get('known', []) if k['property'] == pid and k.get('clause')}
     for key, status in sorted(summ.items()):
         led = ledger.get(key)
@@ -184,6 +188,15 @@ def run_property(pid, tier, seed):
             else:
                 undecided.append({'clause': key, 'reason': 'refuted but never proved on the unchanged tree '
                                   '(not in ledger); model: %s' % (ob.model,)})
+        elif led in ('unknown', 'error') and status in ('unknown', 'error'):
+            # attempted but never discharged on the unchanged tree either: reported in the evidence as not proved
+            # (covered by the bounded stand-in only), neither a violation nor a new undecided verdict
+            not_discharged.append(key)
+        elif status in ('unknown', 'error'):
+            # solver gave no answer this time (budget / load dependent): reported, never a violation, and no
+            # non-zero exit - the clause is simply not counted as discharged in this run's evidence
+            not_discharged.append(key)
+            soft_undecided.append({'clause': key, 'reason': '%s (%s)' % (status, str(bad[0].model)[:80])})
         else:
             undecided.append({'clause': key, 'reason': '%s (%s)' % (status, bad[0].model)})
 
@@ -247,24 +260,26 @@ def run_property(pid, tier, seed):
         vseen.add(v['replay'])
         out_lines.append('VIOLATION property=%s replay=%s%s' % (pid, v['replay'],
                                                                '' if v['found'] else ' no-failing-input-found'))
-    for u in undecided:
+    for u in undecided + soft_undecided:
         out_lines.append('UNDECIDED property=%s clause=%s reason=%s' % (pid, u['clause'], str(u['reason'])[:300]))
 
     # ---------------- evidence
     level = getattr(prop, 'LEVEL', 'other')
-    if not targets:
+    if not all_targets:
         level = 'exploration'
     cov = {
         'obligations': n_obl, 'discharged': n_dis,
         'checker_cmd': './check %s --tier %s' % (pid, tier),
         'trusted_base': core.TRUSTED_BASE + list(getattr(prop, 'TRUSTED', [])),
         'functions_under_contract': targets,
+        'functions_deferred_to_thorough_tier': deferred,
         'obligations_by_backend': by_solver,
         'vc_generation_s': round(gen_s, 2), 'solver_wall_s': round(solve_s, 2),
         'solver_cpu_s': round(sum(o.time for o in obs), 2),
         'clauses': {k: v for k, v in sorted(summ.items())},
         'ground_checks': [{'name': g['name'], 'ok': g['ok'], 'n': g.get('n')} for g in ground_res],
         'undecided': undecided,
+        'attempted_not_discharged': sorted(not_discharged),
         'explanation': getattr(prop, 'EXPLANATION', ''),
     }
     if obs:
